@@ -1,6 +1,7 @@
 import Wasp.Model.Broker
 import Wasp.Properties.C04
 import Wasp.Properties.C06
+import Wasp.Proofs.BrokerC
 /-!
 # C03 — unacknowledged QoS 1/2 deliveries are retransmitted until completed
 
@@ -20,7 +21,7 @@ deadline) drives the writer's callbacks; these theorems say what each resolution
 * `C03_sweep_is_fold`: a sweep is exactly the fold of these reactions over the entries C04 says expire.
 -/
 namespace Wasp.Broker
-open Wasp.Dist Wasp.Topic
+open Wasp.Dist Wasp.Topic Wasp.Broker.AgentC
 
 /-- the entry for (sid, mid) is armed and remembers `st` -/
 def armed (w : World) (i : Nat) (sid : String) (mid : Int) (st : Stored) : Prop :=
@@ -32,6 +33,18 @@ def armed (w : World) (i : Nat) (sid : String) (mid : Int) (st : Stored) : Prop 
     | .rel a b, .rel a' b' => a = a' ∧ b = b'
     | _, _ => False
 
+private theorem armed_of_Armed {w w' : World} {i : Nat} {sid : String} {mid : Int} {st : Stored} {conn : String} {pkt : Pkt}
+    (h : Armed w w' i sid mid st conn pkt)
+    (hst : (∃ a b c d, st = .out1 sid a b c d mid) ∨ (∃ a b c d, st = .out2 sid a b c d mid) ∨ st = .rel sid mid)
+    (hsf : storedFind (Ack.hashKey sid mid) (w.node i).stored = none) :
+    armed w' i sid mid st := by
+  obtain ⟨m, hm⟩ := h.msgs
+  refine ⟨?_, st, ?_, ?_⟩
+  · rw [hm, Ack.msgFind_append]
+    cases Ack.msgFind (Ack.hashKey sid mid) (w.node i).acks.msgs <;> simp [Ack.msgFind]
+  · rw [h.stored, storedFind_append, hsf]; simp [storedFind]
+  · rcases hst with ⟨a, b, c, d, rfl⟩ | ⟨a, b, c, d, rfl⟩ | rfl <;> simp
+
 theorem C03_qos1_expired_live (w : World) (i : Nat) (hi : i < w.nodes.length) (sid topic payload : String) (retain dup : Bool) (mid : Int)
     (s : Sess) (hs : (w.node i).sess sid = some s) (hid : s.id = sid) (hmid : mid ≠ 0)
     (hfree : Ack.msgFind (Ack.hashKey sid mid) (w.node i).acks.msgs = none)
@@ -41,19 +54,24 @@ theorem C03_qos1_expired_live (w : World) (i : Nat) (hi : i < w.nodes.length) (s
     w'.out = w.out ++ [(s.conn, .publish topic payload 1 retain dup mid)] ∧
     armed w' i sid mid (.out1 sid topic payload retain dup mid) ∧
     (w'.node i).pool = (w.node i).pool := by
-  sorry
+  have hsome : ((w.node i).sess sid).isSome = true := by rw [hs]; rfl
+  have hA := armAndSend_out1 w i hi sid topic payload retain dup mid s hs hmid hfree
+  have hr : w.onResolved i ev (.out1 sid topic payload retain dup mid) = w.armAndSend i (.out1 sid topic payload retain dup mid) := by
+    simp [World.onResolved, hev, hs]
+  simp only [hr]
+  exact ⟨hA.out, armed_of_Armed hA (by simp) hsf, hA.pool⟩
 
 theorem C03_qos1_acked (w : World) (i : Nat) (sid topic payload : String) (retain dup : Bool) (mid : Int)
     (ev : Ack.Resolved) (hev : ev.expired = false) :
     w.onResolved i ev (.out1 sid topic payload retain dup mid) = w.poolPut i mid := by
-  sorry
+  simp [World.onResolved, hev]
 
 /-- the session is gone: whatever resolves, the identifier is released and nothing is written -/
 theorem C03_gone (w : World) (i : Nat) (ev : Ack.Resolved) (st : Stored) (sid : String) (mid : Int)
     (hst : (∃ a b c d, st = .out1 sid a b c d mid) ∨ (∃ a b c d, st = .out2 sid a b c d mid) ∨ st = .rel sid mid)
     (hs : (w.node i).sess sid = none) :
     w.onResolved i ev st = w.poolPut i mid := by
-  sorry
+  rcases hst with ⟨a, b, c, d, rfl⟩ | ⟨a, b, c, d, rfl⟩ | rfl <;> simp [World.onResolved, hs]
 
 theorem C03_qos2_pubrec (w : World) (i : Nat) (hi : i < w.nodes.length) (sid topic payload : String) (retain dup : Bool) (mid : Int)
     (s : Sess) (hs : (w.node i).sess sid = some s) (hid : s.id = sid) (hmid : mid ≠ 0)
@@ -62,7 +80,12 @@ theorem C03_qos2_pubrec (w : World) (i : Nat) (hi : i < w.nodes.length) (sid top
     (ev : Ack.Resolved) (hev : ev.expired = false) :
     let w' := w.onResolved i ev (.out2 sid topic payload retain dup mid)
     w'.out = w.out ++ [(s.conn, .pubrel mid)] ∧ armed w' i sid mid (.rel sid mid) ∧ (w'.node i).pool = (w.node i).pool := by
-  sorry
+  have hsome : ((w.node i).sess sid).isSome = true := by rw [hs]; rfl
+  have hA := armAndSend_rel w i hi sid mid s hs hmid hfree
+  have hr : w.onResolved i ev (.out2 sid topic payload retain dup mid) = w.armAndSend i (.rel sid mid) := by
+    simp [World.onResolved, hev, hs]
+  simp only [hr]
+  exact ⟨hA.out, armed_of_Armed hA (by simp) hsf, hA.pool⟩
 
 theorem C03_qos2_publish_expired (w : World) (i : Nat) (hi : i < w.nodes.length) (sid topic payload : String) (retain dup : Bool) (mid : Int)
     (s : Sess) (hs : (w.node i).sess sid = some s) (hid : s.id = sid) (hmid : mid ≠ 0)
@@ -72,7 +95,12 @@ theorem C03_qos2_publish_expired (w : World) (i : Nat) (hi : i < w.nodes.length)
     let w' := w.onResolved i ev (.out2 sid topic payload retain dup mid)
     w'.out = w.out ++ [(s.conn, .publish topic payload 2 retain dup mid)] ∧
     armed w' i sid mid (.out2 sid topic payload retain dup mid) ∧ (w'.node i).pool = (w.node i).pool := by
-  sorry
+  have hsome : ((w.node i).sess sid).isSome = true := by rw [hs]; rfl
+  have hA := armAndSend_out2 w i hi sid topic payload retain dup mid s hs hmid hfree
+  have hr : w.onResolved i ev (.out2 sid topic payload retain dup mid) = w.armAndSend i (.out2 sid topic payload retain dup mid) := by
+    simp [World.onResolved, hev, hs]
+  simp only [hr]
+  exact ⟨hA.out, armed_of_Armed hA (by simp) hsf, hA.pool⟩
 
 theorem C03_rel_expired_live (w : World) (i : Nat) (hi : i < w.nodes.length) (sid : String) (mid : Int)
     (s : Sess) (hs : (w.node i).sess sid = some s) (hid : s.id = sid) (hmid : mid ≠ 0)
@@ -81,22 +109,30 @@ theorem C03_rel_expired_live (w : World) (i : Nat) (hi : i < w.nodes.length) (si
     (ev : Ack.Resolved) (hev : ev.expired = true) :
     let w' := w.onResolved i ev (.rel sid mid)
     w'.out = w.out ++ [(s.conn, .pubrel mid)] ∧ armed w' i sid mid (.rel sid mid) ∧ (w'.node i).pool = (w.node i).pool := by
-  sorry
+  have hsome : ((w.node i).sess sid).isSome = true := by rw [hs]; rfl
+  have hA := armAndSend_rel w i hi sid mid s hs hmid hfree
+  have hr : w.onResolved i ev (.rel sid mid) = w.armAndSend i (.rel sid mid) := by
+    simp [World.onResolved, hev, hs]
+  simp only [hr]
+  exact ⟨hA.out, armed_of_Armed hA (by simp) hsf, hA.pool⟩
 
 theorem C03_rel_acked (w : World) (i : Nat) (sid : String) (mid : Int) (ev : Ack.Resolved) (hev : ev.expired = false) :
     w.onResolved i ev (.rel sid mid) = w.poolPut i mid := by
-  sorry
+  simp [World.onResolved, hev]
 
 /-- wrong packet type, unknown identifier: the world is untouched -/
 theorem C03_wrong_ack_untouched (w : World) (i : Nat) (hi : i < w.nodes.length) (pfx : String) (kind : Ack.PType) (mid : Int)
     (h : (Ack.ack (w.node i).acks pfx kind true mid).2.1 ≠ .ok) :
     w.ackFrom i pfx kind mid = w := by
-  sorry
+  have h0 := Ack.C04_ack_noop (w.node i).acks pfx kind true mid h
+  simp only [World.ackFrom, h0.1, h0.2, List.foldl_nil]
+  exact setNode_node_self w i hi
 
 /-- after the completing acknowledgement the identifier is free again in the pool -/
 theorem C03_released_is_free (w : World) (i : Nat) (hi : i < w.nodes.length) (mid : Int)
     (hinv : IdPool.Inv (w.node i).pool) (hr : (w.node i).pool.min ≤ mid ∧ mid ≤ (w.node i).pool.max) :
     ((w.poolPut i mid).node i).pool.free mid := by
-  sorry
+  simp only [World.poolPut, node_setNode_self _ _ _ hi]
+  exact ((IdPool.put_spec _ hinv mid).2 mid).2 (Or.inr ⟨rfl, hr.1, hr.2⟩)
 
 end Wasp.Broker
